@@ -31,6 +31,19 @@ func writeReplay(w *World, id string, ob *Obligation, vc *VC, path string, reaso
 	if vc != nil && (ob.Status == "sat" || ob.Approx) {
 		b.WriteString(w.db.witnessText(vc, ob))
 	}
+	if vc == nil && ob.Status == "sat" && ob.Kind == "const" {
+		if tmpl := constReplayers[id]; tmpl != nil {
+			ok, text := tmpl(w, ob)
+			b.WriteString("\n--- replay on the real code ---\n")
+			b.WriteString(text)
+			reproduced = ok
+			if ok {
+				b.WriteString("\nreplay: REPRODUCED on the real code\n")
+			} else {
+				b.WriteString("\nreplay: not reproduced (no-failing-input-found)\n")
+			}
+		}
+	}
 	if vc != nil && ob.Status != "unsat" {
 		if tmpl := replayers[id]; tmpl != nil {
 			ok, text := tmpl(w, ob, vc)
@@ -67,6 +80,9 @@ func writeReplay(w *World, id string, ob *Obligation, vc *VC, path string, reaso
 
 // replayers turn a model into a concrete run of the real code.
 var replayers = map[string]func(w *World, ob *Obligation, vc *VC) (bool, string){}
+
+// constReplayers replay counterexamples of constant (regexp language) obligations.
+var constReplayers = map[string]func(w *World, ob *Obligation) (bool, string){}
 
 func runReplayFile(path, repo string) int {
 	return 0
